@@ -570,6 +570,12 @@ def run_l1(prop, tier):
         r = apalache_inductive(os.path.join(SPEC, "apalache", "LimitSortInd.tla"))
         log("[L1] apalache LimitSortInd inductive ok=%s %.0fs" % (r["ok"], r["wall_s"]))
         out.append(r)
+    if tier == "thorough" and prop in ("C01", "C10", "C18"):
+        # add / clear / search histories of any length: the index counts exactly the held records, postings are positions of held
+        # records containing the gram, candidate positions index `records`
+        r = apalache_inductive(os.path.join(SPEC, "apalache", "StoreIndexInd.tla"))
+        log("[L1] apalache StoreIndexInd inductive ok=%s %.0fs" % (r["ok"], r["wall_s"]))
+        out.append(r)
     if tier == "thorough" and prop in ("C19", "C16"):
         # calls of any number with words of any length: every matrix access stays inside the dimension and the flat buffer
         r = apalache_inductive(os.path.join(SPEC, "apalache", "MatrixInd.tla"), cinit=None)
